@@ -39,7 +39,14 @@ NoLast == [op |-> "none", conf |-> TRUE, either |-> FALSE, ins |-> {}, expect |-
 \* ins    : objects passed as operands;  expect : output object -> matrix required by the definition
 \* outcome/outs: "ok" / "raise:<class>" and content of the objects written, as computed (model) or observed (trace)
 \* resok  : results returned by value (positions, extrema, sums, vectors of matrices) match their definition
+\* the design model expands only heaps whose operands are inside the bound, up to Depth calls
+\* (the trace specification sets the bounds out of reach)
+InBound == /\ last.n < Depth
+           /\ \A id \in Ids : /\ heap[id].r <= DMax /\ heap[id].c <= DMax
+                              /\ \A i \in 1..heap[id].r, j \in 1..heap[id].c : heap[id].e[i][j] \in (0 - Bound)..Bound
+
 Step(op, conf, either, ins, expect, outcome, outs, resok) ==
+  /\ InBound
   /\ out'  = outcome
   /\ heap' = Override(heap, outs)
   /\ last' = [op |-> op, conf |-> conf, either |-> either, ins |-> ins, expect |-> expect, pre |-> heap, resok |-> resok, n |-> last.n + 1]
@@ -259,18 +266,12 @@ Init == /\ heap \in {f \in [Ids \cup {OutId} -> Shapes(Vals) \cup Sentinels] :
                        f[OutId] \in Sentinels /\ \A id \in Ids : f[id] \in Shapes(Vals)}
         /\ out = "ok" /\ last = NoLast
 
-\* expand only heaps whose operands are still inside the bound, up to Depth calls
-InBound == /\ last.n < Depth
-           /\ \A id \in Ids : /\ heap[id].r <= DMax /\ heap[id].c <= DMax
-                              /\ \A i \in 1..heap[id].r, j \in 1..heap[id].c : heap[id].e[i][j] \in (0 - Bound)..Bound
-
-Calls == \/ \E a, b \in Ids : \/ DMul(a, b) \/ DMulDiag(a, b) \/ DMulTri(a, b) \/ DMulC(a, b)
+Next == \/ \E a, b \in Ids : \/ DMul(a, b) \/ DMulDiag(a, b) \/ DMulTri(a, b) \/ DMulC(a, b)
                              \/ DAdd(a, b) \/ DAddScaled(a, b) \/ DKron(a, b) \/ DKronRepl(a, b)
                              \/ DHad(a, b) \/ DDSum(a, b) \/ DDSumN(a, b)
         \/ \E a \in Ids : \/ DScale(a) \/ DTranspose(a) \/ DPow(a) \/ DTaylor(a) \/ DKronDiag(a)
                           \/ DHadVec(a) \/ DCovar(a) \/ DExtrema(a)
 
-Next == InBound /\ Calls
 Spec == Init /\ [][Next]_vars
 
 =============================================================================
